@@ -36,6 +36,10 @@ pub struct C08Prop;
 // ---------------------------------------------------------------------------------------------
 
 fn code_roundtrip<T: Code + PartialEq + Debug>(x: &T, what: &str, out: &mut Vec<(String, String)>, res: &mut ShardResult) {
+    // A handful of witnesses per shard is enough (every one of them is replayed twice by the coordinator).
+    if out.len() >= 6 {
+        return;
+    }
     res.add("code_values", 1);
     let mut buf = vec![];
     if let Err(e) = x.encode(&mut buf) {
